@@ -51,6 +51,8 @@ RULE = (
     " A latched engine (boots 2^31-1) answers every request with an authentic notInTimeWindow"
     " report: each call ends within 6 requests and 8x the base step budget, three times in a "
     "row."
+    " Bombs with ONE damaged binding among thousands (last / middle / first); the variants of"
+    " a target (plain, re-signed, re-encrypted, bombs) take turns under the time cap."
 )
 ASSUMPTIONS = [
     "steps = sys.monitoring JUMP|PY_START|PY_RESUME|PY_THROW events inside puresnmp, puresnmp_plugins and x690 (every loop iteration takes a backward jump, every call a PY_START)",
